@@ -23,13 +23,15 @@ import (
 //   - stub Plugin implementations (kinds acc, accC, app, setb, zero, rej, rejmod, err, nil, rejsuf, errsuf)
 //   - real httpPlugin instances (plugin.NewHTTPPluginOptions) talking to one scripted HTTP server
 //     (kinds h…: hacc happ hpart haccC hct hrej hrejU hempty hnull hcnull hcnullU hcstr hbadfield
-//     hmal htrunc hs<code> hreset hrefused hrejsuf)
+//     hmal htrunc hs<code> hreset hrefused hrejsuf herrsuf)
 //
 // every registered plugin is wrapped in a recorder that notes (id, content seen) per Handle call.
 //
 //	reset                                  => -
 //	reg <id> <ops> <kind> <x1> <x2>        => -
 //	call <Op> <a> <b>                      => <res> | <consulted>
+//	site <user> <proxy> <e|s>              => see eng_plugin_site.go (one proxy through every gated call site)
+//	sess <user> <script>                   => see eng_plugin_sess.go (one session, several proxies, close notifications)
 //
 // Visible content members (a, b) per op:
 //
@@ -345,6 +347,12 @@ func plugHTTPHandler(w http.ResponseWriter, r *http.Request) {
 		} else {
 			reply(`{"reject":false,"unchange":true}`)
 		}
+	case sc.kind == "herrsuf": // fails for some contents only (a transient / content dependent failure)
+		w.Header().Set("Content-Type", "application/json")
+		if strings.HasSuffix(a, sc.x1) {
+			w.WriteHeader(500)
+		}
+		_, _ = io.WriteString(w, `{"reject":false,"unchange":true}`)
 	case strings.HasPrefix(sc.kind, "hs"):
 		code, _ := strconv.Atoi(sc.kind[2:])
 		w.Header().Set("Content-Type", "application/json")
@@ -490,6 +498,11 @@ func plugExec(tok []string) string {
 			return pst.siteBad
 		}
 		return siteRun(unhx(tok[1]), unhx(tok[2]), tok[3] == "e")
+	case "sess":
+		if pst.siteBad != "" {
+			return pst.siteBad
+		}
+		return sessRun(unhx(tok[1]), tok[2])
 	}
 	return "bad-op"
 }
@@ -503,7 +516,7 @@ var (
 	plugBs       = []string{"", "bob", "10.0.0.1:5", "ü"}
 	plugReasons  = []string{"no", "", "denied: x", "send Login request to plugin error", "é!"}
 	plugStubK    = []string{"acc", "acc", "acc", "acc", "acc", "acc", "app", "app", "app", "app", "app", "app", "setb", "accC", "setb", "zero", "rej", "rejmod", "err", "nil", "rejsuf", "rejsuf", "errsuf"}
-	plugHTTPK    = []string{"hacc", "hacc", "hacc", "hacc", "hacc", "hacc", "happ", "happ", "happ", "happ", "happ", "happ", "happ", "happ", "hct", "hpart", "haccC", "hct", "hpart", "haccC", "hrej", "hrejU", "hempty", "hnull", "hcnull", "hcnullU", "hcstr", "hbadfield", "hmal", "htrunc", "hs500", "hs404", "hs201", "hs204", "hs302", "hs403", "hreset", "hrefused", "hrejsuf", "hrejsuf"}
+	plugHTTPK    = []string{"hacc", "hacc", "hacc", "hacc", "hacc", "hacc", "happ", "happ", "happ", "happ", "happ", "happ", "happ", "happ", "hct", "hpart", "haccC", "hct", "hpart", "haccC", "hrej", "hrejU", "hempty", "hnull", "hcnull", "hcnullU", "hcstr", "hbadfield", "hmal", "htrunc", "hs500", "hs404", "hs201", "hs204", "hs302", "hs403", "hreset", "hrefused", "hrejsuf", "hrejsuf", "herrsuf", "herrsuf"}
 	plugMalBody  = []string{"", "{", "not json", `{"unchange":true} trailing`, `[1,2]`, `"str"`, `123`, `{"unchange":tru}`, "nul", "\ufeff{}", `{"reject":false,"unchange":true`, `{"content":{"user":1}}x`}
 	plugRawBytes = []string{"\xff\xfe", "\x00", "a\xc3", "\xed\xa0\x80", "\x7f\x80"}
 )
@@ -537,7 +550,7 @@ func plugGenReg(rng *rand.Rand, id int, httpOK bool, raw bool, httpOnly bool, em
 	if httpOnly {
 		kind = pick(rng, plugHTTPK)
 		if rng.Intn(2) == 0 { // keep most call-site scenarios going beyond the login
-			kind = pick(rng, []string{"hacc", "happ", "happ", "hct", "haccC", "hrejsuf", "hcnullU"})
+			kind = pick(rng, []string{"hacc", "happ", "happ", "hct", "haccC", "hrejsuf", "hcnullU", "herrsuf"})
 		}
 		for kind == "hrefused" || kind == "hcnull" {
 			kind = pick(rng, plugHTTPK)
@@ -567,10 +580,39 @@ func plugGenReg(rng *rand.Rand, id int, httpOK bool, raw bool, httpOnly bool, em
 		x1, x2 = tag(), pick(rng, plugReasons)
 	case "errsuf":
 		x1 = tag()
+	case "herrsuf":
+		x1 = tag()
+		if rng.Intn(2) == 0 {
+			x1 = pick(rng, []string{"p", "b", "q", "1", "e"}) // endings of the names the scenarios use
+		}
 	case "hmal":
 		x1 = pick(rng, plugMalBody)
 	}
 	emit(fmt.Sprintf("reg %d %s %s %s %s", id, opsTok, kind, hx(x1), hx(x2)))
+}
+
+// script of a `sess` scenario (eng_plugin_sess.go): 0…6 steps over a small pool of proxy names, so that
+// sessions end with 0…5 live proxies, names collide, proxies are closed explicitly (by the literal
+// name or by the name the server answered), closed twice, closed without being there, and registered
+// again after a close.
+func plugGenScript(rng *rand.Rand) string {
+	names := []string{"p", "web", "p+1", "né", "q"}
+	k := rng.Intn(7)
+	steps := []string{}
+	for i := 0; i < k; i++ {
+		switch r := rng.Intn(100); {
+		case r < 62 || i == 0:
+			steps = append(steps, "n"+hx(pick(rng, names)))
+		case r < 75:
+			steps = append(steps, "c"+hx(pick(rng, names)))
+		default:
+			steps = append(steps, "k"+strconv.Itoa(rng.Intn(i)))
+		}
+	}
+	if len(steps) == 0 {
+		return "-"
+	}
+	return strings.Join(steps, ",")
 }
 
 func plugGen(rng *rand.Rand, n int, emit func(string)) {
@@ -602,6 +644,9 @@ func plugGen(rng *rand.Rand, n int, emit func(string)) {
 			e("call " + pick(rng, plugOps) + " " + hx(a) + " " + hx(b))
 			if httpOnly && rng.Intn(3) == 0 {
 				e("site " + hx(pick(rng, []string{"", "u", "alice", "né"})) + " " + hx(pick(rng, []string{"p", "web", "p+1", "né"})) + " " + pick(rng, []string{"e", "s"}))
+			}
+			if httpOnly && rng.Intn(3) == 0 {
+				e("sess " + hx(pick(rng, []string{"", "u", "alice", "né"})) + " " + plugGenScript(rng))
 			}
 			if rng.Intn(10) == 0 && id < 8 { // late registration
 				id++
